@@ -666,3 +666,17 @@ def triangular_lo(n: size, A: f32[n, n], x: f32[n]):
         for j in seq(0, n - i):
             A[i, j] = x[j]
 ''')
+
+add("alloc_iter_shape", '''
+@proc
+def alloc_iter_shape(n: size, y: f32[n]):
+    for i in seq(0, n):
+        t: f32[i + 1]
+        t[i] = 1.0
+        y[i] = t[i] + 1.0
+    for i in seq(0, n):
+        for j in seq(0, 4):
+            u: f32[i + j + 1]
+            u[i + j] = y[i]
+            y[i] = u[i + j] * 2.0
+''')
